@@ -189,7 +189,8 @@ pub fn c13(n: u64, seed: u64, full_f32: bool) {
         let u = (splitmix(&mut s2) >> 11) as f64 / (1u64 << 53) as f64;
         let x = if i < 4 { [-1.0, 1.0, 0.0, 0.5][i as usize] } else { 2.0 * u - 1.0 };   // in [-1, 1]
         let y = ((splitmix(&mut s2) >> 11) as f64 / (1u64 << 53) as f64 - 0.5) * 20.0;
-        let ang = (u - 0.5) * 1440.0;                                                       // degrees
+        // degrees: a few turns either way, and (every fourth case) tiny angles and angles next to a half turn
+        let ang = match i % 8 { 3 => (u - 0.5) * 1e-4, 7 => 180.0 * ((i % 5) as f64 - 2.0) + (u - 0.5) * 1e-3, _ => (u - 0.5) * 1440.0 };
         tw.rec(close(Deg::<f64>::acos(x).0, x.acos() / d2r) && close(Rad::<f64>::acos(x).0, x.acos())
             && close(Deg::<f64>::asin(x).0, x.asin() / d2r) && close(Rad::<f64>::asin(x).0, x.asin())
             && close(Deg::<f64>::atan(y).0, y.atan() / d2r) && close(Rad::<f64>::atan(y).0, y.atan())
@@ -207,5 +208,25 @@ pub fn c13(n: u64, seed: u64, full_f32: bool) {
             || format!("forward trig units: Deg({:e}): sin={:e} cos={:e} (want {:e}, {:e})", ang, Deg(ang).sin(), Deg(ang).cos(), r.sin(), r.cos()));
     }
     tw.print();
+    // opposite(a) is normalize(a + half turn), bit for bit -- in particular at exact multiples of a half turn,
+    // where the result must be in [0, full turn)
+    let to = Tally::new("opposite_is_normalize_plus_half_turn");
+    let mut s3 = seed ^ 0x0bb0;
+    for i in 0..(n.min(20000) + 32) {
+        let u = (splitmix(&mut s3) >> 11) as f64 / (1u64 << 53) as f64;
+        let d = if i < 24 { 180.0 * (i as f64 - 12.0) } else { (u - 0.5) * 4000.0 };
+        let od = Deg(d).opposite();
+        to.rec(od.0.to_bits() == (Deg(d) + Deg::turn_div_2()).normalize().0.to_bits() && od.0 >= 0.0 && od.0 < 360.0,
+            || format!("Deg({:e}).opposite() = {:e}, normalize(a + 180) = {:e}", d, od.0, (Deg(d) + Deg::turn_div_2()).normalize().0));
+        let rr = if i < 24 { Rad::<f64>::turn_div_2().0 * (i as f64 - 12.0) } else { (u - 0.5) * 70.0 };
+        let or = Rad(rr).opposite();
+        to.rec(or.0.to_bits() == (Rad(rr) + Rad::turn_div_2()).normalize().0.to_bits() && or.0 >= 0.0 && or.0 < Rad::<f64>::full_turn().0,
+            || format!("Rad({:e}).opposite() = {:e}, normalize(a + pi) = {:e}", rr, or.0, (Rad(rr) + Rad::turn_div_2()).normalize().0));
+        let (df, rf) = (d as f32, rr as f32);
+        to.rec(Deg(df).opposite().0.to_bits() == (Deg(df) + Deg::turn_div_2()).normalize().0.to_bits()
+            && Rad(rf).opposite().0.to_bits() == (Rad(rf) + Rad::turn_div_2()).normalize().0.to_bits(),
+            || format!("f32 opposite: Deg({:e}) -> {:e}, Rad({:e}) -> {:e}", df, Deg(df).opposite().0, rf, Rad(rf).opposite().0));
+    }
+    to.print();
     c13_probes();
 }
